@@ -28,9 +28,9 @@ m = {
     "setup_cmd": "./setup.sh",
     "hooks": {
         "guard": "cavint_verif",
-        "enable": "RUSTFLAGS=\"--cfg cavint_verif\" (set by ./check when it builds the harness against /repo); no hook code is currently needed, every observation point is a pub item",
+        "enable": "RUSTFLAGS=\"--cfg cavint_verif\" (set by ./check and setup.sh when they build the harness against /repo). One hook: src/core/triangulation.rs keeps a thread-local trace of the number of active edges at the top of every pass of the sweep's event loop (VERIF_ACTIVE_TRACE); the harness compares its length and hash with the same trace of the Lean model (Model/SweepMon.lean sweepTrace) for every input sent to the model. Cargo.toml declares the cfg name for the unexpected_cfgs lint.",
         "baseline_off_cmd": "cd /repo && cargo test --workspace --no-fail-fast --offline",
-        "source_commits": [],
+        "source_commits": ["f0c8a87", "8d52632"],
         "add_only": True,
     },
     "engines": [
